@@ -14,6 +14,9 @@
 use proptest::prelude::*;
 use serde::{Deserialize, Serialize};
 
+#[path = "probe.rs"]
+mod probe; // carrier (ii): the no-libc executable probe-mem
+
 use vh::runner::{CaseReport, CaseResult, Ctx, Failure};
 use vh::util::{Guarded, PAGE};
 use vh::{ensure, fail};
@@ -773,4 +776,5 @@ pub fn run(ctx: &Ctx) {
     ctx.run_prop("move-rand", ctx.cases(600, 30_000), move_rand(), |c: &MoveCase| check_move(&mut w.borrow_mut(), c));
     ctx.run_prop("set-rand", ctx.cases(400, 20_000), set_rand(), |c: &SetCase| check_set(&mut w.borrow_mut(), c));
     ctx.run_prop("cmp-rand", ctx.cases(400, 20_000), cmp_rand(), |c: &CmpCase| check_cmp(&mut w.borrow_mut(), c));
+    probe::run(ctx);
 }
